@@ -136,7 +136,10 @@ def forbidden_tokens(pid=None):
 
 # supporting theorem modules (text-level parser models) that are re-checked and audited together with a property:
 # PepperProps/<Name>.lean, namespace Pepper.<Name>.Props
-EXTRA_MODULES = {"C01": ["ParseComp"], "C02": ["ParseSys"], "C09": ["ParseComp", "ParseSys"], "C04": ["ParsePil"], "C06": ["ParsePil"]}
+EXTRA_MODULES = {"C01": ["ParseComp"], "C02": ["ParseSys"], "C09": ["ParseComp", "ParseSys"], "C04": ["ParsePil"], "C06": ["ParsePil", "C06Text"],
+                 "C12": ["ParseFixed"]}
+# namespace of the theorems of a supporting module (default Pepper.<Name>.Props)
+EXTRA_NAMESPACE = {"C06Text": "Pepper.C06.Text"}
 
 
 def extra_modules(pid):
@@ -181,7 +184,7 @@ def lean_prepare(pid, need_driver=True, leanchecker=False):
         for n in extras:
             for t in prop_theorems(n):
                 st.theorems.append(n + "." + t)
-                full_name[n + "." + t] = "Pepper.%s.Props.%s" % (n, t)
+                full_name[n + "." + t] = "%s.%s" % (EXTRA_NAMESPACE.get(n, "Pepper.%s.Props" % n), t)
         prop_ok = True
         for mod in [prop_mod] + ["PepperProps." + n for n in extras]:
             rc, out, err = run(["lake", "build", mod], cwd=LEAN, timeout=3000)
